@@ -26,6 +26,17 @@ Theorem C06_parse_text_never_crashes : forall s : bytes,
 Proof. exact parse_text_never_crashes. Qed.
 Print Assumptions C06_parse_text_never_crashes.
 
+(* what is returned: the i-th record is what parse() makes of the i-th block of the text; the errors are those
+   of the faulty blocks, in block order, with the block's line offset added *)
+Theorem C06_parse_text_blockwise : forall s : bytes,
+  (forall rs bs, parse_text s = Ok (Parsed rs bs) ->
+     bs = blocks_of s /\ Forall2 (fun r b => parse_record b = Ok (inl r)) rs bs) /\
+  (forall es, parse_text s = Ok (Failed es) ->
+     es = flat_map (fun b => match parse_record b with Ok (inr errs) => map (report b) errs | _ => [] end)
+                   (blocks_of s)).
+Proof. exact parse_text_blockwise. Qed.
+Print Assumptions C06_parse_text_blockwise.
+
 (* non-vacuity: both alternatives occur — example_text (invalid UTF-8, CRLF, lone CR, no final newline)
    parses to 2 records with 2 blocks, example_faulty to 5 errors *)
 Example C06_nonvacuous :
